@@ -730,7 +730,8 @@ def run_property(ctx, pid, monitor, codes, what_conc):
     for label, b in conc_runs:
         couts, clog = run_conc(b, wd, ccases, tag="conc-" + label)
         if couts is None:
-            conc_fail.append((ccases[0], {"step": 0, "why": "concurrent run (%s build) aborted: %s" % (label, clog[-1500:]), "sig": "race" if "DATA RACE" in clog else "panic"}, label))
+            conc_fail.append((ccases[0], {"step": 0, "why": "concurrent run (%s build) aborted%s: %s" % (label, " - the race detector reported a data race" if ("DATA RACE" in clog or "race detected" in clog) else "",
+                                                                                      "; ".join(re.findall(r"(?m)^(?:fatal error:|panic:|WARNING: DATA RACE|testing: race detected).*$", clog)[:3]) or clog[-600:]), "sig": "race" if ("DATA RACE" in clog or "race detected" in clog) else "panic"}, label))
             continue
         conc_hist += len(couts)
         for c, o in zip(ccases, couts):
